@@ -31,19 +31,42 @@ def Packed.get (p : Packed) (i : Nat) : Int := Int.ofNat (p.raw i) - 32768
 
 def Packed.toArray (p : Packed) : Array Int := Array.ofFn (n := p.size) (fun i => p.get i.val)
 
+/-- a table as the driver sees it: a length and a bounds-checked read -/
+structure Tab where
+  size : Nat
+  get? : Nat → Option Int
+
+def Tab.ofArray (a : Array Int) : Tab := ⟨a.size, fun i => a[i]?⟩
+
+/-- the table read from an array built once (what the compiled driver uses) -/
+def Packed.arrayTab (p : Packed) : Tab := Tab.ofArray p.toArray
+
+/-- the same table read from the number directly (what the kernel can evaluate) -/
+def Packed.tab (p : Packed) : Tab := ⟨p.size, fun i => if i < p.size then some (p.get i) else none⟩
+
+theorem Packed.arrayTab_eq (p : Packed) : p.arrayTab = p.tab := by
+  unfold Packed.arrayTab Packed.tab Tab.ofArray Packed.toArray
+  congr 1
+  · simp
+  · funext i
+    rw [Array.getElem?_ofFn]
+    by_cases h : i < p.size
+    · rw [dif_pos h, if_pos h]
+    · rw [dif_neg h, if_neg h]
+
 /-- the tables and constants of parser.go the driver reads -/
 structure Tables where
-  exca : Array Int
-  act : Array Int
-  pact : Array Int
-  pgo : Array Int
-  r1 : Array Int
-  r2 : Array Int
-  chk : Array Int
-  dflt : Array Int          -- yyDef
-  tok1 : Array Int
-  tok2 : Array Int
-  tok3 : Array Int
+  exca : Tab
+  act : Tab
+  pact : Tab
+  pgo : Tab
+  r1 : Tab
+  r2 : Tab
+  chk : Tab
+  dflt : Tab          -- yyDef
+  tok1 : Tab
+  tok2 : Tab
+  tok3 : Tab
   last : Int                -- yyLast
   priv : Int                -- yyPrivate
   flag : Int                -- yyFlag
@@ -77,18 +100,19 @@ structure PTables where
   scanEOF : Int
   scanUncategorized : Int
 
+/-- the tables, each read through an array built once -/
 def PTables.toTables (p : PTables) : Tables where
-  exca := p.exca.toArray
-  act := p.act.toArray
-  pact := p.pact.toArray
-  pgo := p.pgo.toArray
-  r1 := p.r1.toArray
-  r2 := p.r2.toArray
-  chk := p.chk.toArray
-  dflt := p.dflt.toArray
-  tok1 := p.tok1.toArray
-  tok2 := p.tok2.toArray
-  tok3 := p.tok3.toArray
+  exca := p.exca.arrayTab
+  act := p.act.arrayTab
+  pact := p.pact.arrayTab
+  pgo := p.pgo.arrayTab
+  r1 := p.r1.arrayTab
+  r2 := p.r2.arrayTab
+  chk := p.chk.arrayTab
+  dflt := p.dflt.arrayTab
+  tok1 := p.tok1.arrayTab
+  tok2 := p.tok2.arrayTab
+  tok3 := p.tok3.arrayTab
   last := p.last
   priv := p.priv
   flag := p.flag
@@ -97,6 +121,32 @@ def PTables.toTables (p : PTables) : Tables where
   unknownChar := p.unknownChar
   scanEOF := p.scanEOF
   scanUncategorized := p.scanUncategorized
+
+/-- the tables, each read from its number directly -/
+def PTables.toTablesDirect (p : PTables) : Tables where
+  exca := p.exca.tab
+  act := p.act.tab
+  pact := p.pact.tab
+  pgo := p.pgo.tab
+  r1 := p.r1.tab
+  r2 := p.r2.tab
+  chk := p.chk.tab
+  dflt := p.dflt.tab
+  tok1 := p.tok1.tab
+  tok2 := p.tok2.tab
+  tok3 := p.tok3.tab
+  last := p.last
+  priv := p.priv
+  flag := p.flag
+  eofCode := p.eofCode
+  errCode := p.errCode
+  unknownChar := p.unknownChar
+  scanEOF := p.scanEOF
+  scanUncategorized := p.scanUncategorized
+
+theorem PTables.toTables_eq_direct (p : PTables) : p.toTables = p.toTablesDirect := by
+  unfold PTables.toTables PTables.toTablesDirect
+  simp only [Packed.arrayTab_eq]
 
 /-! ## checked reads -/
 
@@ -111,9 +161,9 @@ inductive Where
 abbrev M := Except Where
 
 /-- `a[i]` with Go's bounds check -/
-def rd (w : Where) (a : Array Int) (i : Int) : M Int :=
+def rd (w : Where) (a : Tab) (i : Int) : M Int :=
   if 0 ≤ i then
-    match a[i.toNat]? with
+    match a.get? i.toNat with
     | some v => .ok v
     | none => .error w
   else .error w
